@@ -175,7 +175,7 @@ def main(argv=None):
         "coverage": {
             "evaluations": m["evaluations"],
             "distinct_nontrivial": len(m["nontrivial"]),
-            "rule": mod.RULE,
+            "rule": mod.RULE + ("; " + mod.RULE_EXTRA if getattr(mod, "RULE_EXTRA", None) else ""),
             "samples": m["samples"],
             "exhaustive": exhaustive,
             "labels": dict(sorted(m["labels"].items())),
